@@ -474,6 +474,8 @@ type mpQuery struct {
 	w       *World
 	// armFrom/armTo: arm when the edge armFrom->armTo is traversed (instead of at `start`)
 	armFrom, armTo *ssa.BasicBlock
+	// isErrReturn, when set, classifies a return as an error exit (for functions whose failure is not an `error` result)
+	isErrReturn func(*ssa.Return, *ssa.BasicBlock) bool
 	// implied: on the FALSE edge of a condition that is one of these values, the mapped value is known non-nil
 	implied map[ssa.Value]ssa.Value
 }
@@ -540,6 +542,26 @@ func mustPass(q mpQuery) *mpResult {
 		if q.armTo != nil && b == q.armTo && from == q.armFrom {
 			armed = true
 		}
+		// boolean phis with a constant incoming value on this edge (found-flags) become path facts
+		if from != nil {
+			for _, pi := range b.Instrs {
+				ph, ok := pi.(*ssa.Phi)
+				if !ok {
+					break
+				}
+				for i, p := range b.Preds {
+					if p == from {
+						if cv, ok := constBool(ph.Edges[i]); ok {
+							f = f.clone()
+							f.conds[ph] = cv
+						} else if _, had := f.conds[ph]; had {
+							f = f.clone()
+							delete(f.conds, ph)
+						}
+					}
+				}
+			}
+		}
 		st := state{b, armed, f.key()}
 		if visited[st] {
 			return
@@ -583,6 +605,9 @@ func mustPass(q mpQuery) *mpResult {
 				if !armed || q.target != nil {
 					return
 				}
+				if q.isErrReturn != nil && q.isErrReturn(x, from) {
+					return
+				}
 				if ei >= 0 {
 					rv := x.Results[ei]
 					if sv, ok := f.cells[rv]; ok {
@@ -624,14 +649,12 @@ func mustPass(q mpQuery) *mpResult {
 					if inv || isNilT {
 						nf = f.clone()
 					}
-					if inv {
-						if prev, ok := f.conds[k]; ok {
-							if prev != kval {
-								continue
-							}
-						} else {
-							nf.conds[k] = kval
+					if prev, ok := f.conds[k]; ok {
+						if prev != kval {
+							continue
 						}
+					} else if inv {
+						nf.conds[k] = kval
 					}
 					if iv, ok := q.implied[k]; ok && !kval {
 						if !inv && !isNilT {
